@@ -775,3 +775,8 @@ pub fn header_name_model(src: &[u8]) -> Result<http::header::HeaderName, http::h
         panic!("verif: header name outside the modelled set");
     }
 }
+
+/// Hook H8: capacity of the BufReader that parse_response / BufReaderWrite create (8 KiB in
+/// production).  CBMC only tracks arrays of up to 64 elements element-wise; a larger buffer makes
+/// every byte read back from it non-constant for the symbolic executor.
+pub const HEAD_BUF_CAP: usize = 48;
